@@ -247,6 +247,12 @@ def gen_inputs(ctx):
         out.append(("corpus:" + f.name, r["pdb"], r.get("args", [])))
     for name, t in pdbgen.test_files(["1HPX", "conf-alt-AB", "conf-model-missing-atoms", "sample-issue-140", "1FTJ-Chain-A"] if ctx.quick() else None):
         out.append((name, t, []))
+    # a chain without identifier next to a named one, selected with a space - alone and together with the named chain
+    bl, bids = pdbgen.multichain(rnd, nchains=2, chains="AB", twins=0.0)
+    if len(bids) == 2:
+        bl = [pdbgen.setcols(l, 21, 22, " ") if pdbgen.is_atom(l) and l[21] == bids[0] else l for l in bl]
+        for a in (["-c", " "], ["-c", " ", "-c", bids[1]], ["-c", bids[1], "-c", " "]):
+            out.append(("blank-chain " + repr(a), pdbgen.text(bl), a))
     # ligands whose records come in another order, or whose atoms have alternate locations: perception must not depend on it
     for name, t in pdbgen.test_files(["1FTJ-Chain-A"] if ctx.quick() else ["1FTJ-Chain-A", "4DFR", "1HPX"]):
         ls = pdbgen.lines_of(t)
@@ -299,7 +305,7 @@ def _run(ctx):
     reqs, reals = [], []
     creqs, creals = [], []
     for name, text, args in inputs:
-        chains = [args[1]] if args[:1] == ["-c"] else None
+        chains = [args[k + 1] for k in range(0, len(args) - 1) if args[k] == "-c"] or None
         lines = pdbgen.lines_of(text)
         # A. terminal tags at text level
         st, rt = spec_tags(lines, ignore, chains), real_tags(text, ignore, chains)
@@ -316,6 +322,16 @@ def _run(ctx):
             ctx.case(key=(name, tuple(args)), nontrivial=False)
             continue
         probs, nsites = census_problems(o)
+        if chains:
+            # "nothing that is not in the structure is reported": with a selection the structure is the selected chains, and every
+            # selected chain that has atoms in the text is read (a blank identifier is selected with a space and reported as '_')
+            sel = {c if c != " " else "_" for c in chains}
+            have = {(l[21] if l[21] != " " else "_") for l in lines if pdbgen.is_atom(l) and l[17:20] not in ignore}
+            seen = {a.chain_id for cname, conf in o.mol.conformations.items() if cname != "AVR" for a in conf.atoms}
+            if seen - sel:
+                probs.append("selection: chains %r were read although only %r are selected" % (sorted(seen - sel), sorted(sel)))
+            if (sel & have) - seen:
+                probs.append("selection: selected chains %r have atoms in the text and were not read" % (sorted((sel & have) - seen),))
         ctx.case(key=(name, tuple(args), hash(text)), nontrivial=nsites >= 2)
         ctx.count("runs" + (" with -c" if chains else " with -i" if args else ""))
         if probs:
